@@ -46,6 +46,18 @@ def rectangular_neighbors_from(
     neighbors = -1 * np.ones(shape=(pixels, 4))
     neighbors_sizes = np.zeros(pixels)
 
+    if shape_native[0] == 1 or shape_native[1] == 1:
+        # a single row or column: the corner / edge / central classes below overlap, the neighbors are the pixels before and after
+        for pixel_index in range(pixels):
+            if pixel_index > 0:
+                neighbors[pixel_index, int(neighbors_sizes[pixel_index])] = pixel_index - 1
+                neighbors_sizes[pixel_index] += 1
+            if pixel_index < pixels - 1:
+                neighbors[pixel_index, int(neighbors_sizes[pixel_index])] = pixel_index + 1
+                neighbors_sizes[pixel_index] += 1
+
+        return neighbors, neighbors_sizes
+
     neighbors, neighbors_sizes = rectangular_corner_neighbors(
         neighbors=neighbors, neighbors_sizes=neighbors_sizes, shape_native=shape_native
     )
